@@ -330,3 +330,22 @@ Proof.
   cbn [lstep] in X. destruct (l_create pend (fst (lrun l_init pre)) c) as [s' e] eqn:El. cbn [snd] in X.
   specialize (X eq_refl). unfold l_create in El. inversion El; subst. exact X.
 Qed.
+
+(* C17, second form: in an accepted transcript a creation that takes a
+   never-used index [c] finds every lower index occupied by an entity that is
+   alive or awaiting maintain; any other creation reuses a Free index *)
+Theorem accepted_fresh_only_when_full tr pre pend c post : saccept s_init tr 0 = None ->
+  micro_run s_init tr = pre ++ (ACreate pend, c) :: post ->
+  let s := fst (lrun l_init pre) in
+  (cell s c = Never -> c = used s /\ forall j, j < c -> occupied (cell s j) = true) /\
+  (cell s c <> Never -> is_free (cell s c) = true).
+Proof.
+  intros H E. destruct (accepted_micro tr s_init 0%nat eq_refl H) as [Hv _].
+  cbn [s_life s_init] in Hv. rewrite E in Hv.
+  rewrite lvalid_app in Hv. apply andb_true_iff in Hv. destruct Hv as [Hv1 Hv2].
+  cbn [lvalid] in Hv2. apply andb_true_iff in Hv2. destruct Hv2 as [Hc _]. cbn [choice_ok] in Hc.
+  destruct (lrun_inv pre l_init [] LInv_init HInv_init Hv1) as [HI _].
+  cbv zeta. split.
+  - intros En. exact (life_fresh_only_when_full _ _ HI Hc En).
+  - intros Hn. exact (life_reuse_is_free _ _ Hc Hn).
+Qed.
